@@ -5,6 +5,7 @@ package main
 
 import (
 	"go/types"
+	"strings"
 
 	"golang.org/x/tools/go/ssa"
 )
@@ -88,6 +89,39 @@ func init() {
 		fail("mapstructure.Decode must be reached through utils.DecodeToStruct with a contract")
 		return nil, false
 	})
+	add("github.com/Azbesciak/RealDecisionMaker/lib/utils.DecodeToStruct", "mapstructure.Decode behind utils.DecodeToStruct: may panic; writes only the object its target pointer refers to (new content unconstrained); allocates", func(x *Exec, st *State, fr *Frame, call *ssa.Call, args []Val) ([]*State, bool) {
+		tv := args[1].T
+		if tv == nil || tv.Kind != kApp || !strings.HasPrefix(tv.Op, "box_") {
+			fail("DecodeToStruct: target is not a statically known pointer")
+		}
+		var pt types.Type
+		for _, tt := range x.TI.tagTypes {
+			if x.TI.boxName(tt) == tv.Op {
+				pt = tt
+			}
+		}
+		ptr, ok := types.Unalias(pt).Underlying().(*types.Pointer)
+		if !ok {
+			fail("DecodeToStruct: target is not a pointer")
+		}
+		addr := tv.Args[0]
+		x.frameCheck(st, addr, "call.DecodeToStruct")
+		x.bumpAlloc(st)
+		s := x.TI.SortOf(ptr.Elem())
+		h := x.heapGet(st, hpComp(s), hpSort(s))
+		nv := x.freshVar("decoded", s)
+		st.assume(x.wf(st, nv, ptr.Elem()))
+		st.heap[hpComp(s)] = Store(h, addr, nv)
+		// write back if the target was a materialised local
+		for _, m := range st.mats {
+			if m.addr.String() == addr.String() {
+				x.store(st, m.loc, nv, "call.DecodeToStruct.writeback")
+			}
+		}
+		fr.vals[call] = Val{}
+		fr.idx++
+		return nil, true
+	}, 1)
 	add("sort.Float64s", "sorts the slice ascending in place; result is a permutation", modelSortBasic(SReal, false), 0)
 	add("sort.Strings", "sorts the slice ascending in place; result is a permutation", modelSortBasic(SStr, true), 0)
 	add("sort.Ints", "sorts the slice ascending in place; result is a permutation", modelSortBasic(SInt, false), 0)
